@@ -65,10 +65,10 @@ SPEC = {
     "lean_files": ["PdModel/Model/Election.lean", "PdModel/Lemmas/Election.lean", "PdModel/Props/C03.lean",
                    "PdModel/Spec/C03.lean", "PdModel/Driver/Election.lean"],
     "gen": {
-        "quick": {"args": ["-n", "70", "-len", "50"], "streams": 4},
-        "thorough": {"args": ["-n", "500", "-len", "70", "-real"], "streams": 16},
+        "quick": {"args": ["-n", "70", "-len", "50", "-srv"], "streams": 4},
+        "thorough": {"args": ["-n", "500", "-len", "70", "-real", "-srv"], "streams": 16},
     },
-    "search": {"args": ["-n", "150", "-len", "60"], "streams": 8},
+    "search": {"args": ["-n", "150", "-len", "60", "-srv"], "streams": 8},
     "nontrivial": nontrivial,
     "coverage_extra": coverage_extra,
     "rule": "sequence = reset + 2-5 contenders (real member.Member + Leadership + global TSO allocator + id allocator + "
